@@ -18,6 +18,7 @@ type modelState struct {
 	memo       map[string]value
 	approxFmt  int
 	clockCalls int
+	shaSymbolic int
 }
 
 func newModelState() *modelState {
